@@ -317,8 +317,9 @@ class RainbowDQN(RLAlgorithm):
             t_z = rewards + (1 - dones) * gamma * self.support
             t_z = t_z.clamp(min=self.v_min, max=self.v_max)
 
-            # Finds closest support element index value
-            b = (t_z - self.v_min) / self.delta_z
+            # Finds closest support element index value (float rounding of the division can
+            # leave a value clipped onto v_max slightly above the last atom index)
+            b = ((t_z - self.v_min) / self.delta_z).clamp(0, self.num_atoms - 1)
 
             # Find the neighbouring indices of b
             L = b.floor().long()
